@@ -128,11 +128,13 @@ type Streamer struct {
 	frame    *Frame
 	// unrolled loops (unroll.go): up is set on the streamer of one iteration and
 	// points to the streamer of the activation that contains the loop
-	up    *Streamer
+	up *Streamer
 	// caller is set on the streamer of an inlined callee
 	caller *Streamer
 	loops  map[*ssa.BasicBlock]*Loop
-	iters map[*Frame]*Streamer
+	iters  map[*Frame]*Streamer
+	// isFail overrides what counts as a failing exit of a loop body (unroll.go)
+	isFail func(*ssa.BasicBlock, map[*ssa.BasicBlock]bool) bool
 }
 
 func NewStreamer(fn *ssa.Function, inModule func(*ssa.Function) bool) *Streamer {
@@ -439,6 +441,47 @@ func GlobalConstBytes(g *ssa.Global) ([]byte, bool) {
 	}
 	if str, ok := constStr(val); ok {
 		return []byte(str), true
+	}
+	// a byte literal []byte{'N', 'T', …}: a fresh array, one constant store per
+	// element (elements never stored stay zero), sliced as a whole
+	if sl, ok := val.(*ssa.Slice); ok && sl.Low == nil && sl.High == nil && sl.Max == nil {
+		al, isAl := sl.X.(*ssa.Alloc)
+		if !isAl || al.Referrers() == nil {
+			return nil, false
+		}
+		arr, isArr := derefT(al.Type()).Underlying().(*types.Array)
+		if !isArr || !isByte(arr.Elem()) || arr.Len() > 1<<12 {
+			return nil, false
+		}
+		out := make([]byte, arr.Len())
+		seen := map[int64]bool{}
+		for _, r := range *al.Referrers() {
+			switch x := r.(type) {
+			case *ssa.DebugRef:
+			case *ssa.Slice:
+				if x != sl {
+					return nil, false
+				}
+			case *ssa.IndexAddr:
+				idx, isK := constI(x.Index)
+				if !isK || idx < 0 || idx >= arr.Len() || seen[idx] || x.Referrers() == nil || len(*x.Referrers()) != 1 {
+					return nil, false
+				}
+				st, isSt := (*x.Referrers())[0].(*ssa.Store)
+				if !isSt || st.Addr != ssa.Value(x) {
+					return nil, false
+				}
+				k, isC := constI(st.Val)
+				if !isC || k < 0 || k > 255 {
+					return nil, false
+				}
+				seen[idx] = true
+				out[idx] = byte(k)
+			default:
+				return nil, false
+			}
+		}
+		return out, true
 	}
 	return nil, false
 }
